@@ -260,13 +260,14 @@ type scen struct {
 type live struct {
 	id    uuid.UUID
 	props []profile.Property
-	mode  string // "req" | "noreq"
+	mode  string // "req" | "noreq" | "noreq-other" (asks a proxy plugin something on another channel, never forwarding)
 	data  []byte // forwarding request data
 	done  chan result
 }
 type result struct {
 	resp   rig.VelocityResponse
 	err    error
+	other  bool // a proxy plugin answered the backend's other login plugin request successfully
 	joined bool // the backend's side of the join went through
 	closed bool // the proxy closed the backend connection
 }
@@ -368,6 +369,26 @@ func TestTrace(t *testing.T) {
 				return
 			}
 		}
+		if lv.mode == "noreq-other" {
+			// a login plugin request on a channel that a proxy plugin (event subscriber) answers
+			req := (&mcwire.Buf{}).VarInt(9).String("verif:other").Raw([]byte("verif-ping")).B
+			if err := bc.WritePacket(rig.LoginPluginMsg, req); err != nil {
+				return
+			}
+			for i := 0; i < 50; i++ {
+				p, err := bc.ReadPacket()
+				if err != nil {
+					return
+				}
+				if p.ID == rig.SBLoginPluginResp {
+					rd := mcwire.NewRd(p.Data)
+					if rd.VarInt() == 9 {
+						res.other = rd.Bool()
+						break
+					}
+				}
+			}
+		}
 		if bc.Proto >= rig.P1_20 && bc.Proto <= rig.P1_20_3 {
 			res.joined = bc.CompleteJoin(-1) == nil
 		} else {
@@ -378,7 +399,7 @@ func TestTrace(t *testing.T) {
 			}
 			_ = bc.WritePacket(rig.LoginSuccessID, rig.LoginSuccessPayload(bc.Proto, id, bc.Name))
 		}
-		if lv.mode == "noreq" {
+		if lv.mode != "req" {
 			// the proxy must refuse: wait (generously) for it to close this connection
 			bc.Conn.Timeout = 10 * time.Second
 			for {
@@ -402,6 +423,12 @@ func TestTrace(t *testing.T) {
 	event.Subscribe(mgr, 0, func(e *proxy.GameProfileRequestEvent) {
 		if lv := get(e.Original().Name); lv != nil {
 			e.SetGameProfile(profile.GameProfile{ID: lv.id, Name: e.Original().Name, Properties: lv.props})
+		}
+	})
+	// a proxy plugin that answers login plugin requests of backends (on whatever channel) whose body is verif-ping
+	event.Subscribe(mgr, 0, func(e *proxy.ServerLoginPluginMessageEvent) {
+		if string(e.Contents()) == "verif-ping" {
+			e.Result().Response = []byte("verif-pong")
 		}
 	})
 	r, err := rig.New(rig.Options{EventMgr: mgr, Backends: map[string]*rig.Backend{"paper": be}, Try: []string{"paper"},
@@ -431,7 +458,7 @@ func TestTrace(t *testing.T) {
 		jobs = append(jobs, job{s.Proto, "req", s.Req, []byte{byte(s.Req)}})
 	}
 	for p := range liveProtos {
-		jobs = append(jobs, job{p, "req", -1, nil}, job{p, "req", -1, []byte{4, 4}}, job{p, "noreq", 0, nil})
+		jobs = append(jobs, job{p, "req", -1, nil}, job{p, "req", -1, []byte{4, 4}}, job{p, "noreq", 0, nil}, job{p, "noreq-other", 0, nil})
 	}
 	var wg sync.WaitGroup
 	lostProtos := map[int]int{}
@@ -508,7 +535,7 @@ func TestTrace(t *testing.T) {
 					samples = append(samples, map[string]any{"src": "live", "proto": j.proto, "requested": j.req,
 						"version": rec["p"].(parsed).Version, "ip": local, "macok": rec["macok"], "payload_bytes": len(res.resp.Data)})
 				}
-			case "noreq":
+			case "noreq", "noreq-other":
 				connected := false
 				if pl := r.P.PlayerByName(name); pl != nil {
 					if cs := pl.CurrentServer(); cs != nil && cs.Server().ServerInfo().Name() == "paper" {
@@ -519,8 +546,12 @@ func TestTrace(t *testing.T) {
 					stats["noreq_inconclusive"]++ // neither closed nor connected within the wait: no statement
 					return
 				}
-				tw.Emit(tracefmt.Rec{"ev": "noreq", "proto": j.proto, "connected": connected, "closed": res.closed, "joined": res.joined})
+				tw.Emit(tracefmt.Rec{"ev": "noreq", "proto": j.proto, "connected": connected, "closed": res.closed, "joined": res.joined,
+					"otherchannel": j.mode == "noreq-other", "otheranswered": res.other})
 				stats["noreq"]++
+				if res.other {
+					stats["noreq_after_plugin_answered_other_channel"]++
+				}
 			}
 		}()
 	}
